@@ -530,6 +530,17 @@ theorem arc_frees_exactly_once (n : Nat) (hn : 0 < n) (evs : List CountEv) (n' f
   rw [this.2]
   by_cases h0 : n' = 0 <;> simp [h0, hn]
 
+/-- **Atomic = uninterrupted.** Written as separate loads and stores, but with
+no step of another thread between a thread's load and its store, the count of
+the load/store machine stays equal to the number of live handles and the
+payload is never freed while a handle lives: what `Arc` guarantees and `Rc`
+does not is exactly that no other thread gets in between. -/
+theorem atomic_pairs_never_free_live (n : Nat) (evs : List (Nat × CountEv)) (n' fr' : Nat)
+    (h : countRun (n, 0) (evs.map (·.2)) = some (n', fr')) :
+    let s := rcRun { count := n, live := n, tmp := [], frees := 0, freedWhileLive := false } (atomicOps evs)
+    s.count = n' ∧ s.live = n' ∧ s.frees = fr' ∧ s.freedWhileLive = false :=
+  rc_atomic_pairs_exact evs { count := n, live := n, tmp := [], frees := 0, freedWhileLive := false } n' fr' rfl rfl h
+
 /-- **Refutation for a non-atomic count** (`Rc` behind an `unsafe impl Send`):
 one handle exists; threads 1 and 2 each clone it (load, load, store, store: one
 increment lost) and drop their clone again: the count reaches 0 and the payload
